@@ -114,6 +114,24 @@ def from_py(v):
     return ['obj', type(v).__name__, []]
 
 
+def kc(node):
+    """KC of TaskTrees.tla: the same tree with every dict key reduced to its string content (a member of a str-mixin enum
+    used as a key IS that string: metadata holds the content, and the reconstructed task is equal to the original)."""
+    from lv.universe import tv_enums
+    k, a, c = node
+    if k in ('dict', 'fdict'):
+        kids = []
+        for i, x in enumerate(c):
+            if i % 2 == 0 and x[0] == 'enum':
+                _, cls, member = x[1].split('.')
+                v = getattr(tv_enums, cls)[member]
+                kids.append(['str', str.__str__(v), []] if isinstance(v, str) else x)
+            else:
+                kids.append(kc(x) if i % 2 else x)
+        return [k, a, kids]
+    return [k, a, [kc(x) for x in c]]
+
+
 def json_to_node(j):
     """serialize_task output (plain JSON data) as a j-node tree, class names mapped to the spec's names."""
     if j is None:
@@ -377,12 +395,12 @@ def run_job(job, base: Path):
         task = tasks.get(o['id'])
         if task is None:
             continue
-        tree = from_py(task)       # strict identity: 1, 1.0 and True are different parameter values
-        cnt = {name: sum(1 for x in lst if type(x) is type(task) and x == task and from_py(x) == tree) for name, lst in listing.items()}
-        loose = {name: sum(1 for x in lst if from_py(x) == tree) for name, lst in listing.items()}
+        tree = kc(from_py(task))   # strict identity: 1, 1.0 and True are different parameter values (dict keys: by content)
+        cnt = {name: sum(1 for x in lst if type(x) is type(task) and x == task and kc(from_py(x)) == tree) for name, lst in listing.items()}
+        loose = {name: sum(1 for x in lst if kc(from_py(x)) == tree) for name, lst in listing.items()}
         o['listed_own'] = cnt[o['ty']]
         o['listed_elsewhere'] = sum(v for n, v in loose.items() if n != o['ty'])
-        match = [x for x in listing[o['ty']] if type(x) is type(task) and x == task and from_py(x) == tree]
+        match = [x for x in listing[o['ty']] if type(x) is type(task) and x == task and kc(from_py(x)) == tree]
         # C07: the key of the task as reconstructed from cache metadata (matched by plain equality)
         eqs = [x for x in listing[o['ty']] if type(x) is type(task) and x == task]
         if eqs:
@@ -415,8 +433,8 @@ def run_job(job, base: Path):
                 name = o['ty']
                 if name not in relist:
                     relist[name] = lab.cached_tasks([_types()[name]])
-                tree = from_py(t)
-                m = [x for x in relist[name] if type(x) is type(t) and x == t and from_py(x) == tree]
+                tree = kc(from_py(t))
+                m = [x for x in relist[name] if type(x) is type(t) and x == t and kc(from_py(x)) == tree]
                 o['relisted_meta_ok'] = bool(m and f.result_meta is not None and meta_tok(m[0].result_meta) == meta_tok(f.result_meta))
         except BaseException as ex:   # noqa
             for o, _t in sample:
